@@ -342,7 +342,31 @@ def s_derivations():
                 if e is None and want not in (0, 1, rg.identity):
                     report("arbitrary_element-raises", group=name, seed=w); return
 
-for f in [x for x in (s_util, s_derivations, s_elements, s_entropy, s_params_mix, s_sessions) if not only or x.__name__ in only]:
+def s_ae_long_runs():
+    # Ed25519 try-and-increment: seeds whose derived y is followed by a long run of non-curve values (found with the
+    # reference alone, cheap), then compared on the real function
+    picks = []
+    for i in range(4000):
+        seed = b"seed-%d" % i
+        y = int.from_bytes(C.hkdf(seed, b"", b"SPAKE2 arbitrary element", 48), "big") % C.ED_Q
+        k = 0
+        while C.ed_decompress_y((y + k) % C.ED_Q) is None:
+            k += 1
+        picks.append((k, seed))
+    picks.sort(reverse=True)
+    rg = R.EdGroup()
+    for k, seed in picks[:12] + picks[2000:2004]:
+        o = outcome(E.arbitrary_element, seed)
+        want = rg.enc(rg.arbitrary_element(seed))
+        if o[0] != "ok" or o[1].to_bytes() != want:
+            report("ed-arbitrary_element-long-run", seed=seed, increments=k, got=str(o[0])); return
+        try:
+            P_._Params(ed25519_group.Ed25519Group, M=seed)
+        except Exception as e:
+            report("params-with-long-run-seed", seed=seed, exc=type(e).__name__); return
+
+
+for f in [x for x in (s_util, s_derivations, s_ae_long_runs, s_elements, s_entropy, s_params_mix, s_sessions) if not only or x.__name__ in only]:
     if mismatch is None:
         suite(f)
 
